@@ -91,7 +91,8 @@ package reconciling
 
 // CloseOpenRange: on failure nothing is touched; on success only the open range's lines are edited.
 //@ func (*Reconciler).CloseOpenRange
-//@ requires recOk(r) && typeis(endTime, *klog.time)
+//@ requires recOk(r)
+//@ requires typeis(endTime, *klog.time)
 //@ modifies r.lines, elems(r.lines), elems(r.Record.(*klog.record).entries)
 //@ ensures implies(nonnil(result), same(r.lines, old(r.lines)) && forall(p, 0, len(r.lines), same(r.lines[p], old(r.lines[p]))))
 //@ before ReplaceAllString assert 0 <= openRangeEntryIndex && openRangeEntryIndex < old(len(es(r))) && openRangeValueLineIndex == old(lineOf(r, openRangeEntryIndex))
